@@ -92,6 +92,14 @@ package jpeg
 //@   requires [C10] !isSigAt(r, pos(r)) ==> h.ByteOrder == utils.UnknownEndian
 //@   modifies stream(r), foreign(jpeg)
 //@   ensures pos(r) >= old(pos(r))
+// C10 grants this about the Exif callback ("provided the Exif callback consumes its declared length"); where the library
+// binds its own reader (imagemeta.DecodeJPEG: ir.DecodeJPEGIfd) the clause is a refinement obligation on that method.
+//@   ensures [C10] err == nil ==> pos(r) == old(pos(r)) + int(h.ExifLength)
+// the reader handed over is the scanner's own buffered reader
+//@   requires [C10] is(r, "*bufio.Reader")
+// the refinement by the library's reader is checked for non-empty payloads (an Exif APP1 segment of length 8 has no TIFF header;
+// exif2 treats a block length of 0 as "unknown" and does not clamp its reads then)
+//@   bindassume [C10] h.ExifLength != 0
 
 //@ func (*jpegReader).readExif
 //@   props C02 C10 C06
@@ -103,6 +111,8 @@ package jpeg
 //@   ensures [C10] hOff != 0 || hLen != 0 ==> hOff == old(jr.discarded) + 10 && hLen == uint32(int(jr.size) - 8)
 //@   ensures [C10] pos(jr.br) >= old(pos(jr.br))
 //@   ensures [C10] err == nil && jr.ExifReader == nil ==> pos(jr.br) == old(pos(jr.br)) + 2 + int(jr.size)
+// absolute offsets stay correct across the callback: what it consumed is accounted for
+//@   ensures [C10] err == nil ==> jr.discarded == old(jr.discarded) + uint32(pos(jr.br) - old(pos(jr.br)))
 
 // The XMP callback is handed a reader limited to the packet: the APP1 payload after the 29-byte namespace prefix.
 // ASSUMED about the callback: it acts only through the *io.LimitedReader it is given, so what it consumes from the
@@ -122,6 +132,7 @@ package jpeg
 //@   modifies jr.discarded, stream(jr.br), io.LimitedReader.N, foreign
 //@   ensures [C10] pos(jr.br) >= old(pos(jr.br))
 //@   ensures [C10] err == nil ==> pos(jr.br) == old(pos(jr.br)) + 2 + int(jr.size)
+//@   ensures [C10] err == nil ==> jr.discarded == old(jr.discarded) + uint32(pos(jr.br) - old(pos(jr.br)))
 
 //@ func (*jpegReader).readAPP1
 //@   props C02 C10
@@ -130,6 +141,7 @@ package jpeg
 //@   ensures [C10] pos(jr.br) >= old(pos(jr.br))
 //@   ensures [C02] jr.err == nil ==> pos(jr.br) > old(pos(jr.br))
 //@   ensures [C10] jr.err == nil && jr.ExifReader == nil ==> pos(jr.br) == old(pos(jr.br)) + 2 + int(jr.size)
+//@   ensures [C10] jr.err == nil ==> jr.discarded == old(jr.discarded) + uint32(pos(jr.br) - old(pos(jr.br)))
 
 //@ func (*jpegReader).readAPPMarker
 //@   props C02 C10
@@ -138,6 +150,7 @@ package jpeg
 //@   ensures [C10] pos(jr.br) >= old(pos(jr.br))
 //@   ensures [C02] jr.err == nil ==> pos(jr.br) > old(pos(jr.br))
 //@   ensures [C10] jr.err == nil && jr.ExifReader == nil ==> pos(jr.br) == old(pos(jr.br)) + 2 + int(jr.size)
+//@   ensures [C10] jr.err == nil ==> jr.discarded == old(jr.discarded) + uint32(pos(jr.br) - old(pos(jr.br)))
 
 // ScanJPEG: the marker loop. Termination: every iteration either consumes input or sets the sticky error.
 //@ func ScanJPEG
@@ -145,4 +158,6 @@ package jpeg
 //@   entry
 //@   requires r != nil
 //@   loop 0 invariant jr != nil && jr.br != nil
+// C10, absolute offsets: the running offset is the number of bytes consumed from the scanned stream since the scan began
+//@   loop 0 invariant [C10] jr.err == nil ==> jr.discarded == uint32(pos(jr.br) - atentry(0, pos(jr.br)))
 //@   loop 0 decreases ite(jr.err == nil, 1, 0), lim(jr.br) - pos(jr.br)
